@@ -15,15 +15,17 @@ MANIFEST_ENTRY = {
             "automaton over a wf table (which is what each GSS path of the GLR driver is) yields only derivation "
             "trees. An executable Lean model of the GLR driver itself (Model/GLR.lean: GSS, path search, limited "
             "re-reductions, revisits, shifts) is proved sound for every wf table, input and fuel (C01_glr_model_sound: "
-            "a forest answer implies the input is a sentence; GSS invariant 'every node reachable, every link "
-            "replayable'; hypotheses wf and idempotent layout skipping evaluated per table and input) and is run on every input (lexical ambiguity included; inputs whose revisit sets have an order the model does not determine are flagged and left to the oracles) and must "
+            "a forest answer implies the input is a sentence; C01_glr_model_forest_sound: every tree of its packed "
+            "forest — one possibility per link below a root link — is a parse tree of the input; GSS invariant "
+            "'every node reachable, every link replayable, every packed possibility locally right'; hypotheses wf "
+            "and idempotent layout skipping evaluated per table and input) and is run on every input (lexical ambiguity included; inputs whose revisit sets have an order the model does not determine are flagged and left to the oracles) and must "
             "give the implementation's acceptance and exact set of packed alternatives. Per case the "
             "implementation's accept/reject is also compared with the verified oracle, every tree "
             "taken from the forest (all up to a cap, sampled beyond) is checked by the verified checker, and only "
             "parglare.SyntaxError may be raised",
     "note": "trusted: Lean kernel; match/skip tables from the real recognizers; the GLR driver model is tied to "
-            "glr.py by exact correspondence; soundness of its acceptance is a theorem, the validity of every tree "
-            "of its forest and completeness of acceptance are not: the implementation's outputs are judged "
+            "glr.py by exact correspondence; soundness of its acceptance and of every tree of its packed forest are "
+            "theorems, completeness is not (and fails: F-GLR-1/2): the implementation's outputs are judged "
             "by verified checkers on the explored scope (translation-validation style); "
             "rejected sentences on nullable hidden-recursive grammars are the recorded finding F-GLR-1",
     "technique": "Lean 4 proofs of oracle/checker correctness and LR-path soundness + executable GLR driver model in "
@@ -33,7 +35,7 @@ MANIFEST_ENTRY = {
 PROP = "C01"
 LEVEL = "proof"
 THEOREMS = ["C01_sentence_oracle_correct", "C01_tree_checker_correct", "C01_path_sound", "C01_accept_sound",
-            "C01_glr_model_sound", "C01_glr_model_sound_on_decoded_data"]
+            "C01_glr_model_sound", "C01_glr_model_sound_on_decoded_data", "C01_glr_model_forest_sound"]
 META = {
     "rule": "cases = (grammar, LALR|SLR, input incl. layout variants); grammars: exhaustive small scope + seeded "
             "random (nullable, hidden recursion, cyclic, lexical overlap at forced rates); non-trivial = sentence "
